@@ -274,7 +274,7 @@ def orderKeyOf (r : Record) (k : OrderKey) : Except Err JVal :=
     | .dict kvs => utilsGetNested r.toJVal (findAttrD k.attr kvs)
     | _ => pure .null
 
-/-- stable insertion: `x` goes after every element that is not greater -/
+/-- stable insertion, ascending: `x` goes after every element that is not greater (`<` is the only comparison) -/
 def insAsc {α : Type} (x : α × JVal) : List (α × JVal) → Except Err (List (α × JVal))
   | [] => pure [x]
   | y :: ys => do
@@ -283,13 +283,19 @@ def insAsc {α : Type} (x : α × JVal) : List (α × JVal) → Except Err (List
       let r ← insAsc x ys
       pure (y :: r)
 
-/-- `sorted(xs, key=...)` (stable, uses `<` only) -/
-def sortAsc {α : Type} (xs : List (α × JVal)) : Except Err (List (α × JVal)) :=
-  xs.foldlM (fun acc x => insAsc x acc) []
+/-- stable insertion, descending: `x` goes after every element that is not smaller -/
+def insDesc {α : Type} (x : α × JVal) : List (α × JVal) → Except Err (List (α × JVal))
+  | [] => pure [x]
+  | y :: ys => do
+    if (← pyLt y.2 x.2) then pure (x :: y :: ys)
+    else
+      let r ← insDesc x ys
+      pure (y :: r)
 
-/-- `sorted(xs, key=..., reverse=flag)`: CPython reverses, sorts, reverses (keeps stability) -/
+/-- `sorted(xs, key=..., reverse=flag)`: a stable sort that uses `<` only; with `reverse` the result is
+descending and still stable (Python documentation of `sorted`/`list.sort`) -/
 def pySorted {α : Type} (xs : List (α × JVal)) (reverse : Bool) : Except Err (List (α × JVal)) :=
-  if reverse then (sortAsc xs.reverse).map List.reverse else sortAsc xs
+  xs.foldlM (fun acc x => if reverse then insDesc x acc else insAsc x acc) []
 
 def sortByKey (rows : List Record) (k : OrderKey) : Except Err (List Record) := do
   let keyed ← rows.mapM (fun r => do let v ← orderKeyOf r k; pure (r, v))
@@ -338,20 +344,26 @@ def serviceQueryTiny (rows : List Record) (q : Request) : Except Err (List Recor
   | none => pure found
   | some ks => orderResults found ks
 
+/-- the validation ladder of `request_data_objects`: refusal code, if any -/
+def requestRefusal (registered : Bool) (q : Request) : Option Nat :=
+  if !registered then some 1
+  else if q.types.any (fun t => !validType t) then some 2
+  else if (match q.prio with | some p => p < 0 || p > 255 | none => false) then some 3
+  else if q.orderBad then some 5
+  else if q.filterBad then some 4
+  else none
+
 def if4Request (consumers : List Nat) (rows : List Record) (q : Request) : ReqOut :=
-  if !consumers.contains q.app then .refused 1
-  else if q.types.any (fun t => !validType t) then .refused 2
-  else if (match q.prio with | some p => p < 0 || p > 255 | none => false) then .refused 3
-  else if q.orderBad then .refused 5
-  else if q.filterBad then .refused 4
-  else match serviceQuery rows q with
+  match requestRefusal (consumers.contains q.app) q with
+  | some c => .refused c
+  | none => match serviceQuery rows q with
     | .ok rs => .ok rs
     | .error e => .exc e
 
 def if4RequestTiny (consumers : List Nat) (rows : List Record) (q : Request) : ReqOut :=
-  match if4Request consumers [] q with
-  | .refused c => .refused c
-  | _ => match serviceQueryTiny rows q with
+  match requestRefusal (consumers.contains q.app) q with
+  | some c => .refused c
+  | none => match serviceQueryTiny rows q with
     | .ok rs => .ok rs
     | .error e => .exc e
 
